@@ -48,6 +48,9 @@ RANGE_BATTERY = [
      ["local a   =  1\n"], [], "local a   =  1\nlocal b = 2;\n(f)()\n"),
     ("range-second-exact", "local x   =  1;\nlocal y   =  2;\n", ["--range-start", "16"], [], [], "local x   =  1;\nlocal y = 2\n"),
     ("range-open", "local x   =  1\nlocal y   =  2\n", [], [], ["local x = 1\n", "local y = 2\n"]),
+    ("range-inverted", "local   a   =   1\nlocal   b   =   2 ;\nlocal   c   =   3\n", ["--range-start", "37", "--range-end", "18"], [], [],
+     "local   a   =   1\nlocal   b   =   2 ;\nlocal   c   =   3\n"),
+    ("range-empty", "local   a   =   1\nlocal   b   =   2\n", ["--range-start", "20", "--range-end", "20"], [], [], "local   a   =   1\nlocal   b   =   2\n"),
     ("range-inside-ignored", "-- stylua: ignore\nlocal function f()\n\tlocal b   =   2\nend\nlocal c   =  3\n", ["--range-start", "38", "--range-end", "53"],
      [], [], "-- stylua: ignore\nlocal function f()\n\tlocal b   =   2\nend\nlocal c   =  3\n"),
     ("range-ignored-stmt-partly-inside", "-- stylua: ignore\nlocal function f()\n\tlocal b   =   2\nend\nlocal c   =  3\n", ["--range-start", "30"],
